@@ -1322,7 +1322,9 @@ fn render_match_type(type_def: &Type) -> String {
         Type::Primitive(_)
         | Type::ModuleType { .. }
         | Type::SelfDefault { .. } => true,
-        Type::Tuple(tuple_type) => tuple_type.is_partial,
+        // A partial type whose fields all read as patterns — `(j: 't)` — would be read back as the
+        // partial *pattern* (binding `j`), which the parser tries first.
+        Type::Tuple(tuple_type) => tuple_type.is_partial && reads_as_type(type_def),
         // `render_type` already parenthesises a union, so it needs no extra wrapping here.
         Type::Union(_) => true,
         _ => false,
@@ -1332,6 +1334,16 @@ fn render_match_type(type_def: &Type) -> String {
     } else {
         format!("({})", render_type(type_def))
     }
+}
+
+/// Whether the bare rendering of `type_def` in a pattern is read back by the parser as that type.
+fn reads_as_type(type_def: &Type) -> bool {
+    let Ok(program) = crate::parser::parse(&format!("={}", render_type(type_def))) else {
+        return false;
+    };
+    matches!(program.statements.as_slice(), [Statement::Expression(sequence)]
+        if matches!(sequence.chains.as_slice(), [chain]
+            if matches!(chain.terms.as_slice(), [Term::Match(Match::Type(parsed))] if parsed == type_def)))
 }
 
 // ---------------------------------------------------------------------------
